@@ -120,6 +120,12 @@ def check_value(ctx, L, tname, v):
     want = v.to_bytes(w, "big", signed=p["signed"])
     if bytes(b) != want:
         return fail("to_bytes", f"byte form {bytes(b).hex()} != big-endian two's complement of width {w}: {want.hex()}")
+    # the byte form must not depend on what was asked of the same object before (explicit arguments, other byte order)
+    again = ctx.guard(lambda: (x.to_bytes(byteorder="little"), x.to_bytes(w), x.to_bytes(signed=p["signed"]), x.to_bytes()), f"C16:to_bytes-variants:{kind}", payload)
+    if again is None:
+        return
+    if bytes(again[0]) != v.to_bytes(w, "little", signed=p["signed"]) or any(bytes(b2) != want for b2 in again[1:]):
+        return fail("to_bytes-history", f"after to_bytes(byteorder='little') / explicit arguments the byte forms are {[bytes(b2).hex() for b2 in again]}, expected little {v.to_bytes(w, 'little', signed=p['signed']).hex()} then {want.hex()}")
     iv = ctx.guard(lambda: x.is_valid(), f"C16:is_valid:{kind}", payload)
     if iv is None and False:
         return
@@ -135,6 +141,35 @@ def check_value(ctx, L, tname, v):
                 return fail("format", f"format() gives {texts[0]!r}, declared name(s) {sorted(exp)}")
             if texts[1] not in exp:
                 return fail("str", f"str() gives {texts[1]!r}, declared name(s) {sorted(exp)}")
+
+
+def range_name_history(ctx, L, tname):
+    """Looking a handle up by a differently spelt name (upper case, no padding) must not change the text form of later values."""
+    from tpmstream.spec.common.values import NamedRange
+
+    T = O.lib_type(tname)
+    p = L.prim(tname)
+    for m in p.get("members", []):
+        if "range" not in m:
+            continue
+        rng = getattr(T, m["name"], None)
+        if not isinstance(rng, NamedRange):
+            continue
+        lo, hi = m["range"]
+        for v in sorted({lo, lo + 7, lo + 10, hi - 1, lo + (hi - lo) // 2}):
+            if not lo <= v < hi:
+                continue
+            off = v - lo
+            for spelling in (f"{m['basename']}{m['sep']}{off:X}", f"{m['basename']}{m['sep']}{off:x}", f"{m['basename']}{m['sep']}{off:0{m['nibbles'] + 2}x}"):
+                payload = {"type": tname, "value": v, "by_name": spelling}
+                got = ctx.guard(lambda: rng.by_name(spelling), "C16:by_name", payload)
+                if got is None:
+                    return
+                ctx.case((tname, "by_name", spelling), True, sample={"type": tname, "by_name": spelling, "value": v} if off == 7 else None)
+                if int(got) != v:
+                    ctx.problem("C16:by_name:value", f"{tname}.{m['name']}.by_name({spelling!r}) has value {int(got):#x}, expected {v:#x}", payload)
+                    return
+                check_value(ctx, L, tname, v)
 
 
 def _apply(f, a, b):
@@ -195,10 +230,14 @@ def run_shard(ctx):
         else:
             units.append((t, interesting_values(L, t), "boundary"))
         units.append((t, None, "ops"))
+        if any("range" in m for m in L.prim(t).get("members", [])):
+            units.append((t, None, "names"))
         units.append((t, None, "random"))
     for t, vals, mode in ctx.mine(units):
         if mode == "ops":
             ctx.run_plain(lambda: ops_for_type(ctx, L, t), f"ops:{t}")
+        elif mode == "names":
+            ctx.run_plain(lambda: range_name_history(ctx, L, t), f"names:{t}")
         elif mode == "random":
             w = L.width(t)
             if w == 1 or (w == 2 and not ctx.quick()):
